@@ -35,10 +35,16 @@ GConnect(which) ==
         after |-> [claim |-> Agree(eA', eB'), ft |-> Agree(fA', fB'),
                    untouched |-> (eA' = eA /\ eB' = eB /\ fA' = fA /\ fB' = fB)]])
 
+GConnectByCommand ==
+  /\ ConnectByCommand
+  /\ H([a |-> "ConnectCmd", out |-> cmdres'[Len(cmdres')],
+        after |-> [claim |-> Agree(eA', eB'), ft |-> Agree(fA', fB'),
+                   untouched |-> (eA' = eA /\ eB' = eB /\ fA' = fA /\ fB' = fB)]])
+
 GenInit == Init /\ hist = << [a |-> "Init", cfg |-> cfg, rel |-> rel] >>
-GenNext == GMint \/ GImport \/ GImportFT \/ GConnect("claim") \/ GConnect("filetrans")
+GenNext == GMint \/ GImport \/ GImportFT \/ GConnect("claim") \/ GConnect("filetrans") \/ GConnectByCommand
 GenSpec == GenInit /\ [][GenNext]_gvars
 
-Done == phase = "done"
+Done == phase = "done" /\ todo = << >>
 EmitTrace == Done => PrintT(ToJson([trace |-> hist]))
 =============================================================================
